@@ -140,13 +140,16 @@ def _kani_unit(unit, tier, seed):
         return res
     res.cuts, res.counter = cuts, dict(counter)
     hs = [h for h in unit["harnesses"] if tier == "thorough" or h.get("tier", "quick") == "quick"]
+    if os.environ.get("VX_HARNESS"):
+        want = os.environ["VX_HARNESS"].split(",")
+        hs = [h for h in hs if h["name"] in want]
     # harnesses are grouped by extra kani args
     groups = {}
     for h in hs:
         groups.setdefault(tuple(h.get("kani_args", [])), []).append(h)
     try:
         for extra, hl in groups.items():
-            out_all, meta, out, err = R.run_kani(unit["name"], crate_dir, [h["name"] for h in hl], timeout=unit.get("timeout", 3000),
+            out_all, meta, out, err = R.run_kani(unit["name"], crate_dir, [h["name"] for h in hl], timeout=unit.get("timeout", 3000), harness_timeout=unit.get("harness_timeout", 400),
                                                  jobs=unit.get("jobs", 8), extra=list(extra) + unit.get("kani_args", []))
             res.meta = meta
             if not out_all:
@@ -199,7 +202,7 @@ def _kani_unit(unit, tier, seed):
             for f in bad_f:
                 res.cex[f["obligation"]] = _extract_playback(out, f["harness"])
     finally:
-        if scratch_copy:
+        if scratch_copy and not os.environ.get("VX_KEEP"):
             shutil.rmtree(os.path.dirname(scratch_copy) if unit.get("scratch_parent") else scratch_copy, ignore_errors=True)
     res.wall = time.time() - t0
     return res
@@ -229,7 +232,7 @@ def _gen_mode_m(unit):
     shutil.copytree(src_dir, dst, ignore=shutil.ignore_patterns("target", "benches"))
     open(os.path.join(dst, "Cargo.toml"), "w").write(unit["cargo_toml"])
     lock = os.path.join(REPO, "Cargo.lock")
-    if os.path.exists(lock):
+    if unit.get("copy_lock") and os.path.exists(lock):
         shutil.copy(lock, os.path.join(dst, "Cargo.lock"))
     cuts = []
     # inject contract attributes in front of named functions (attributes only; no executable token is edited)
@@ -278,7 +281,7 @@ def assumption_scan(units):
     pats = [r"\bassume\s*\(", r"\badmit\s*\(", r"external_body", r"assume_specification", r"kani::assume", r"kani::stub", r"\bexternal\b", r"uninterp\s+spec", r"axiom"]
     for u in units:
         texts = [("units/%s.py" % u["name"], json.dumps({k: v for k, v in u.items() if isinstance(v, str)}))]
-        texts[0] = ("units/%s.py" % u["name"], "\n".join(v for v in u.values() if isinstance(v, str)) + "\n".join((it.get("spec") or "") + "".join(g[2] for g in it.get("ghost", []) or []) for it in u["items"]))
+        texts[0] = ("units/%s.py" % u["name"], "\n".join(v for v in u.values() if isinstance(v, str)) + "\n".join((it.get("spec") or "") + "".join(g[2] for g in it.get("ghost", []) or []) for it in u.get("items", [])))
         for sf in u.get("shim_files", []):
             texts.append((sf, U.read_rel(sf)))
         for name, t in texts:
